@@ -130,8 +130,17 @@ impl Cache for MemoryStore {
 
     fn flush(&self, header: CacheMetaData) {
         if header.time_to_live > 0 {
+            // a delayed flush may only shorten a life: items that would outlive now + delay
+            // are re-stamped to expire exactly then, all others keep their own deadline
+            let now = self.timer.timestamp();
+            let deadline = now + header.time_to_live as u64;
             self.memory.alter_all(|_key, mut value| {
-                value.header.time_to_live = header.time_to_live;
+                if value.header.time_to_live == 0
+                    || value.header.timestamp + (value.header.time_to_live as u64) > deadline
+                {
+                    value.header.timestamp = now;
+                    value.header.time_to_live = header.time_to_live;
+                }
                 value
             });
         } else {
